@@ -272,6 +272,7 @@ def check_invalid(case, acc):
         dict(knots=[6.0]), dict(knots=[-1.0]), dict(knots=[1.0], lower_bound=2.0), dict(knots=[3.0], upper_bound=2.5), dict(df=4, lower_bound=3.0, upper_bound=1.0),
         dict(df=3, lower_bound=9.0), dict(df=3, upper_bound=-2.0), dict(df=3, degree=2, intercept=True, lower_bound=6.0), dict(df=4, degree=3, upper_bound=-0.5),
         dict(df=5, knots=[1.0]), dict(df=4, knots=[1.0, 2.0, 3.0]), dict(knots=[[1.0, 2.0]]), dict(df=4, degree="3"),
+        dict(df=np.float64(4.5)), dict(df=np.float32(4.25)), dict(df=4, degree=np.float64(2.5)), dict(df=np.sqrt(20.0)), dict(df=5, degree=np.float16(1.5)),  # fractional NumPy scalars
     ]
     # every position of one knot outside the range among valid ones, in every order of the list
     for outside in (6.0, -1.0, 5.5, -0.25):
@@ -366,7 +367,11 @@ def check_design(case, acc):
               "y ~ poly(x, degree=2)", "y ~ poly(x, 2, raw=True)", "y ~ poly(x, degree=3, raw=True) + (0 + poly(x, degree=2) | g)", "y ~ bs(x, degree=2, df=4)", "y ~ bs(x, knots=kn, intercept=True)",
               "y ~ (poly(x, raw=True, degree=2) | g)", "y ~ bs(x, knots=kna)", "y ~ (0 + bs(x, knots=kna, degree=2) | g)"):
         kna[:] = [1.5, 3.0]
-        acc.calls += 1
+        acc.calls += 2
+        try:  # not from the initial state: the same text was fitted to other data before (other location, spread and range)
+            design_matrices(f, pd.DataFrame({"y": np.arange(7.0), "x": [40.0, 55.0, 47.5, 61.0, 52.0, 44.0, 58.5], "g": list("abababa")}))
+        except Exception:
+            pass
         dm = design_matrices(f, df)
         mats = [(w, M, np.array(M.design_matrix, dtype=float, copy=True)) for w, M in (("common", dm.common), ("group", dm.group)) if M is not None]
         m, s = x.mean(), x.std()
